@@ -54,6 +54,63 @@ func c17(c *Ctx) {
 			}
 		}
 	}
+	if f := c.Fn(migrationPkg, "Reconciler", "prepareJobWithReservationScheduleSuccess"); f != nil {
+		r.Rule("PATH: in prepareJobWithReservationScheduleSuccess, for a reservation with a node whose job has no node recorded yet and whose ReservationScheduled condition is not True (absent, or False after an unschedulable round), no return is reachable without abortJobIfReserveOnSameNode")
+		facts := an.Facts{}
+		for _, b := range f.Blocks {
+			for _, in := range b.Instrs {
+				bo, ok := in.(*ssa.BinOp)
+				if !ok || (bo.Op != token.EQL && bo.Op != token.NEQ) {
+					continue
+				}
+				str, isC := constString(bo.Y)
+				if !isC {
+					continue
+				}
+				px := an.Path(bo.X)
+				var holds, known bool
+				switch {
+				case str == "" && strings.Contains(px, "GetScheduledNodeName"):
+					holds, known = false, true // the reservation has a node
+				case str == "" && strings.HasSuffix(px, ".Status.NodeName"):
+					holds, known = true, true // the job has none recorded (== "" holds)
+				case str == "True" && strings.HasSuffix(px, ".Status"):
+					holds, known = false, true // the condition is not True
+				}
+				if !known {
+					continue
+				}
+				if (bo.Op == token.EQL) == holds {
+					facts[bo] = an.True
+				} else {
+					facts[bo] = an.False
+				}
+			}
+		}
+		reach := an.Explore(f, nil, facts, func(in ssa.Instruction) bool {
+			cl, ok := in.(ssa.CallInstruction)
+			return ok && an.ShortCallee(cl.Common()) == "abortJobIfReserveOnSameNode"
+		})
+		r.Check(len(facts) >= 3 && len(reach.Returns()) == 0, "PATH", fkey(f)+"/same-node-check-not-skippable", c.Pos(f.Pos()), "the same-node check runs unless the job is already recorded as scheduled", sprintf("the same-node check can be skipped although the job is not recorded as scheduled (%d returns reachable, %d tests recognised): after one unschedulable round the condition exists with status False, and a reservation that then lands on the pod's own node is accepted", len(reach.Returns()), len(facts)))
+	}
+	if f := c.Fn(migrationPkg, "Reconciler", "preparePodRef"); f != nil {
+		r.Rule("ERR: in preparePodRef a failed Get of the pod (also NotFound, after the job was aborted) makes the function return a non-nil error: the caller sets the job Running on a nil error")
+		for _, cl := range an.Calls(f, false) {
+			if !cl.Common().IsInvoke() || cl.Common().Method.Name() != "Get" || cl.Value() == nil {
+				continue
+			}
+			reach := an.Explore(f, an.After(cl), an.Facts{cl.Value(): an.NonNil}, nil)
+			bad := ""
+			for _, ret := range reach.Returns() {
+				for _, alt := range reach.Alts(ret) {
+					if reach.EvalAlt(alt, 2) != an.NonNil {
+						bad = c.InstrPos(ret)
+					}
+				}
+			}
+			r.Check(bad == "", "ERR", fkey(f)+"/get-error-returned", c.InstrPos(cl), "a failed Get is returned", "after the pod could not be read the function can return a nil error (at "+bad+"): a job that was just marked Failed is put back to Running and goes on to reserve and evict")
+		}
+	}
 	if f := c.Fn(migrationPkg+"/reservation", "interpreterImpl", "DeleteReservation"); f != nil {
 		r.Rule("ERR: in the reservation interpreter's DeleteReservation a failed Client.Delete makes the function return a non-nil error (abortJobIfTimeout relies on it to keep the job alive until the reservation is really gone)")
 		n := 0
